@@ -16,6 +16,7 @@ import (
 	"os/exec"
 	"path/filepath"
 	"runtime/debug"
+	"syscall"
 	"time"
 
 	"github.com/mk6i/mkdb/sql"
@@ -143,7 +144,11 @@ type histOut struct {
 }
 
 type histTornCase struct {
-	Pages   []int       `json:"pages"`
+	Pages []int `json:"pages"`
+	// > 0: before the recovery that is observed, a first recovery ran in a process whose file
+	// writes at or beyond PreLimit pages fail (RLIMIT_FSIZE): a crash inside the flush that ends
+	// recovery itself
+	PreLimit int         `json:"prelimit,omitempty"`
 	Recover string      `json:"recover"`
 	Tables  []histTable `json:"tables"`
 	ThenRes []string    `json:"thenRes"`
@@ -592,7 +597,20 @@ func histRunCase(c histCase) ([]histOut, error) {
 					subsets = append(subsets, sub)
 				}
 			}
-			for _, sub := range subsets {
+			type tornVariant struct {
+				sub      []int
+				preLimit int
+			}
+			var variants []tornVariant
+			for si, sub := range subsets {
+				variants = append(variants, tornVariant{sub, 0})
+				if si == 0 || si == len(subsets)-1 || si%5 == 2 {
+					// the recovery of this image is itself cut short inside its final flush, then repeated
+					variants = append(variants, tornVariant{sub, 1}, tornVariant{sub, 3 + si%3})
+				}
+			}
+			for _, tv := range variants {
+				sub := tv.sub
 				h.nimg++
 				img, err := histImage(h.root, h.nimg, h.cur, -1)
 				if err != nil {
@@ -613,7 +631,10 @@ func histRunCase(c histCase) ([]histOut, error) {
 				if err := os.WriteFile(filepath.Join(img, storage.VerifDataPath(histDB), "tbl"), buf, 0644); err != nil {
 					return nil, err
 				}
-				tc := histTornCase{Pages: append([]int{}, sub...)}
+				tc := histTornCase{Pages: append([]int{}, sub...), PreLimit: tv.preLimit}
+				if tv.preLimit > 0 {
+					histRecoverLimited(img, tv.preLimit)
+				}
 				// recovery of a torn image can die with a fatal error that recover() cannot catch
 				// (unbounded recursion through a page that was never written): run it in a child
 				tc.Recover, tc.Tables, tc.ThenRes, tc.Tables2 = histRecoverIsolated(img, ev.Tables, h.cache, ev.Then)
@@ -644,6 +665,35 @@ type histRecoverResp struct {
 	Tables  []histTable `json:"tables"`
 	ThenRes []string    `json:"thenRes"`
 	Tables2 []histTable `json:"tables2"`
+}
+
+// histRecoverLimited runs recovery on the image in a child process whose file writes at or beyond
+// `pages` pages fail (RLIMIT_FSIZE: the kernel refuses the write and sends SIGXFSZ), so that the
+// flush which ends recovery is cut short at a real point of the real code; whatever the child did
+// to the data file and the log stays in the image. Its outcome is not looked at.
+func histRecoverLimited(img string, pages int) {
+	in := filepath.Join(img, "req0.json")
+	b, _ := json.Marshal(histRecoverReq{Dir: img})
+	if err := os.WriteFile(in, append(b, '\n'), 0644); err != nil {
+		return
+	}
+	cmd := exec.Command(os.Args[0], "-test.run", "^TestVerifDriver$", "-test.timeout", "30s")
+	cmd.Env = append(os.Environ(), "VERIF_MODE=recoverimg", "VERIF_IN="+in, "VERIF_OUT="+filepath.Join(img, "resp0.json"),
+		fmt.Sprintf("VERIF_FSIZE_PAGES=%d", pages))
+	cmd.Dir = img
+	done := make(chan error, 1)
+	if err := cmd.Start(); err != nil {
+		return
+	}
+	go func() { done <- cmd.Wait() }()
+	select {
+	case <-done:
+	case <-time.After(40 * time.Second):
+		cmd.Process.Kill()
+		<-done
+	}
+	os.Remove(in)
+	os.Remove(filepath.Join(img, "resp0.json"))
 }
 
 // histRecoverIsolated re-executes this test binary in mode "recoverimg" on one image directory
@@ -688,6 +738,17 @@ func init() {
 				return err
 			}
 			resp := histRecoverResp{}
+			if lim := os.Getenv("VERIF_FSIZE_PAGES"); lim != "" {
+				// recovery only, with file writes at or beyond the limit refused by the kernel
+				var n int
+				fmt.Sscanf(lim, "%d", &n)
+				lim := syscall.Rlimit{Cur: uint64(n) * uint64(storage.VerifPageSize), Max: uint64(n) * uint64(storage.VerifPageSize)}
+				if err := syscall.Setrlimit(syscall.RLIMIT_FSIZE, &lim); err != nil {
+					return err
+				}
+				histRecover(req.Dir)
+				os.Exit(0)
+			}
 			resp.Recover = histRecover(req.Dir)
 			if resp.Recover == "ok" {
 				rs2, err := storage.VerifOpenRelation(histDB, req.Cache, false)
